@@ -574,6 +574,12 @@ def tz_offset_us(us, local):
     tz = getattr(e, "tz", "utc")
     if tz == "utc":
         return 0
+    if isinstance(tz, (tuple, list)) and tz[0] == "real":
+        # one real transition of a named zone: offsets and instant concrete, the queried instants symbolic
+        _, tr_us, o1_us, o2_us = tz
+        before = (us - o1_us) < tr_us if local else us < tr_us
+        b = before if isinstance(before, bool) else e.branch(before)
+        return o1_us if b else o2_us
     st = e.pm.get("tz_state")
     if st is None:
         q = 15 * 60 * 10**6
@@ -745,6 +751,13 @@ class _DTModule(object):
     MAXYEAR = _dt.MAXYEAR
 
 
+    def __getattr__(self, name):
+        return getattr(_dt, name)
+
+
+SHIM_MODULE = _DTModule()
+
+
 def cur_or_none():
     return E.ENGINE
 
@@ -777,7 +790,7 @@ def install(module):
     if g.get("datetime") is _dt.datetime:
         g["datetime"] = datetime_factory
     elif g.get("datetime") is _dt:
-        g["datetime"] = _DTModule()
+        g["datetime"] = SHIM_MODULE
     if g.get("timedelta") is _dt.timedelta:
         g["timedelta"] = timedelta_factory
     if g.get("date") is _dt.date:
